@@ -42,6 +42,22 @@ type c16Case struct {
 	// Linked: an existing env file i is reached through a symbolic link
 	Dangling []bool `json:"dangling,omitempty"`
 	Linked   []bool `json:"linked,omitempty"`
+	// TextStyle of env / label file i: 0 plain, 1 starts with a byte order mark, 2 CRLF line ends, 3 both, 4 no final newline
+	TextStyle []int `json:"text_style,omitempty"`
+}
+
+func c16Styled(content string, style int) string {
+	switch style {
+	case 1:
+		return "\ufeff" + content
+	case 2:
+		return strings.ReplaceAll(content, "\n", "\r\n")
+	case 3:
+		return "\ufeff" + strings.ReplaceAll(content, "\n", "\r\n")
+	case 4:
+		return strings.TrimSuffix(content, "\n")
+	}
+	return content
 }
 
 func genC16(t *rapid.T) c16Case {
@@ -53,6 +69,7 @@ func genC16(t *rapid.T) c16Case {
 		req := rapid.IntRange(0, 2).Draw(t, "required") != 0
 		cs.Missing = append(cs.Missing, missing)
 		cs.Required = append(cs.Required, req)
+		cs.TextStyle = append(cs.TextStyle, rapid.SampledFrom([]int{0, 0, 0, 1, 2, 3, 4}).Draw(t, "textstyle"))
 		cs.Dangling = append(cs.Dangling, missing && rapid.Bool().Draw(t, "dangling"))
 		cs.Linked = append(cs.Linked, !missing && rapid.IntRange(0, 3).Draw(t, "linked") == 0)
 	}
@@ -161,11 +178,15 @@ func (cs c16Case) build() (loadCase, map[string]*string, map[string]string, bool
 				}
 			}
 		}
+		text := b.String()
+		if f < len(cs.TextStyle) {
+			text = c16Styled(text, cs.TextStyle[f])
+		}
 		switch {
 		case !cs.Missing[f] && f < len(cs.Linked) && cs.Linked[f]:
-			files = append(files, memFile{Name: fmt.Sprintf("envs/real/target%d.env", f), Content: b.String()}, memFile{Name: fmt.Sprintf("envs/file%d.env", f), Link: fmt.Sprintf("real/target%d.env", f)})
+			files = append(files, memFile{Name: fmt.Sprintf("envs/real/target%d.env", f), Content: text}, memFile{Name: fmt.Sprintf("envs/file%d.env", f), Link: fmt.Sprintf("real/target%d.env", f)})
 		case !cs.Missing[f]:
-			files = append(files, memFile{Name: fmt.Sprintf("envs/file%d.env", f), Content: b.String()})
+			files = append(files, memFile{Name: fmt.Sprintf("envs/file%d.env", f), Content: text})
 		case f < len(cs.Dangling) && cs.Dangling[f]:
 			files = append(files, memFile{Name: fmt.Sprintf("envs/file%d.env", f), Link: "nowhere/gone.env"})
 		}
